@@ -3,6 +3,7 @@ package main
 import (
 	"bytes"
 	"fmt"
+	"strings"
 
 	"google.golang.org/protobuf/proto"
 
@@ -31,9 +32,10 @@ import (
 
 // ctorCase is one typed constructor taking []byte arguments, instantiated from a template object.
 type ctorCase struct {
-	name  string
-	args  [][]byte
-	build func(a [][]byte) (any, error)
+	name     string
+	args     [][]byte
+	build    func(a [][]byte) (any, error)
+	optional bool // an alternative encoding of the argument the constructor may refuse
 }
 
 func idOf(k key.Key) uint32 { id, _ := k.IDRequirement(); return id }
@@ -41,8 +43,28 @@ func idOf(k key.Key) uint32 { id, _ := k.IDRequirement(); return id }
 // ctorsFor lists the byte-taking constructors able to rebuild k (a key or one of the objects reachable
 // from it).
 func ctorsFor(k any) []ctorCase {
+	base := ctorsFor0(k)
+	out := base
+	// big-integer arguments also arrive with leading zero bytes (ASN.1 sign byte, fixed-width padding): a constructor
+	// that normalises them must not keep a sub-slice of the caller's buffer
+	for _, c := range base {
+		if !strings.Contains(strings.ToLower(c.name), "modulus") {
+			continue
+		}
+		for _, z := range []int{1, 4} {
+			c2 := c
+			c2.name = fmt.Sprintf("%s with %d leading zero byte(s)", c.name, z)
+			c2.args = [][]byte{append(make([]byte, z), c.args[0]...)}
+			c2.optional = true
+			out = append(out, c2)
+		}
+	}
+	return out
+}
+
+func ctorsFor0(k any) []ctorCase {
 	one := func(name string, arg []byte, f func(b []byte) (any, error)) []ctorCase {
-		return []ctorCase{{name, [][]byte{clone(arg)}, func(a [][]byte) (any, error) { return f(a[0]) }}}
+		return []ctorCase{{name: name, args: [][]byte{clone(arg)}, build: func(a [][]byte) (any, error) { return f(a[0]) }}}
 	}
 	switch v := k.(type) {
 	case *ecdsa.PublicKey:
@@ -192,6 +214,11 @@ func ctorCases(x *h.X, desc string, k any) {
 			gs := t.place(l, c.args...)
 			obj, err := c.build(gs.Args)
 			t.guards(c.name, gs)
+			if err != nil && c.optional {
+				x.Outcome("ctor-variant-refused")
+				t.drop(gs)
+				break
+			}
 			if err != nil {
 				x.Fail("construct", "%s: %v", t.what, err)
 				break
